@@ -5,6 +5,7 @@ the canonical result.  See harness/props/C06.py for the grammar of the lines.
 import Driver.Proto
 import SpsdkVerif.Model.Ahab
 import SpsdkVerif.Model.AhabVerify
+import SpsdkVerif.Model.AhabParse
 import SpsdkVerif.Spec.AhabRom
 import SpsdkVerif.Crypto.Exec
 open SpsdkVerif Driver
@@ -14,7 +15,7 @@ open SpsdkVerif.Generated
 structure St where
   ver : Ver := .v1
   chip : Option Chip := none
-  conts : List (Container × List SrkRecord) := []     -- newest first
+  conts : List (Container × List SrkRecord × List SrkV2) := []     -- newest first
   -- verifier side
   vconts : List VContainer := []                      -- newest first
   voverlap : Bool := true
@@ -27,7 +28,7 @@ def mkChip (family rev tm : String) : Option Chip := (findChip family rev).map (
 
 def emptySb : SigBlock := ⟨[], [], [], [], none⟩
 
-def modTop (st : St) (f : Container × List SrkRecord → Container × List SrkRecord) : St × String :=
+def modTop (st : St) (f : Container × List SrkRecord × List SrkV2 → Container × List SrkRecord × List SrkV2) : St × String :=
   match st.conts with
   | c :: cs => ({ st with conts := f c :: cs }, "ok")
   | [] => (st, "bad-op:no-container")
@@ -37,17 +38,21 @@ def modVTop (st : St) (f : VContainer → VContainer) : St × String :=
   | c :: cs => ({ st with vconts := f c :: cs }, "ok")
   | [] => (st, "bad-op:no-container")
 
-/-- SRK table from the accumulated records with the lengths `update_fields` computes -/
-def finalize (p : Container × List SrkRecord) : PyRes Container :=
+/-- SRK table (v1) / SRK table array (v2) from the accumulated records with the lengths `update_fields` computes -/
+def finalize (p : Container × List SrkRecord × List SrkV2) : PyRes Container :=
   match p with
-  | (c, []) => .ok c
-  | (c, recs) =>
+  | (c, [], []) => .ok c
+  | (c, recs, []) =>
     let recs := recs.reverse.map (fun r => { r with length := r.computedLength })
     match encodeSrkTable ⟨SrkTable.computedLength recs, recs⟩ with
     | .ok b => .ok { c with sb := { c.sb with srk := b } }
     | .error e => .error e
+  | (c, _, srks) =>
+    match encodeSrkArray crypto c.usedSrkId srks.reverse with
+    | .ok b => .ok { c with sb := { c.sb with srk := b } }
+    | .error e => .error e
 
-def finalizeAll : List (Container × List SrkRecord) → PyRes (List Container)
+def finalizeAll : List (Container × List SrkRecord × List SrkV2) → PyRes (List Container)
   | [] => .ok []
   | p :: ps =>
     match finalize p, finalizeAll ps with
@@ -87,6 +92,24 @@ def repLine (bin : List UInt8) (rs : List Spec.AhabRom.ContainerRep) : String :=
        | none => " unsigned"
        | some s => s!" signed={s.signedLen} table={s.srkTableOff}:{s.srkTableLen} rec={s.srkRecOff}:{s.srkRecLen} used={s.usedSrk} sigdata={s.sigOff}:{s.sigLen} srkhash={toHex s.srkHash}")))
 
+def sha (b : List UInt8) : String := toHex (crypto.hash .sha256 b)
+
+def dumpContainer (v : Ver) (c : PContainer) : String :=
+  let h := c.header
+  let sb := c.sb
+  let srk := match sb.srk with
+    | .none => "-"
+    | .table t => s!"table:{t.length}:" ++ "/".intercalate (t.records.map (fun (r : SrkRecord) => s!"{r.signAlg},{r.hashAlg},{r.keySize},{r.srkFlags},{r.length},{sha r.params}"))
+    | .raw b => s!"raw:{b.length}:{sha b}"
+  let blob := match sb.blob with
+    | some b => s!"{b.flags},{b.size},{b.algorithm},{b.mode},{b.length},{toHex b.keyblob},{b.keyIdentifier}"
+    | none => "-"
+  s!"H:{h.version},{h.length},{h.tag},{h.flags},{h.swVersion},{h.fuseVersion},{h.nImages},{h.sbOffset} " ++
+  s!"SB:{sb.length},{sb.srkOff},{sb.sigOff},{sb.certOff},{sb.blobOff} SRK:{srk} " ++
+  s!"SIG:{match sb.signature with | some g => toHex g | none => "-"} CERT:{match sb.cert with | some x => sha x | none => "-"} BLOB:{blob} IMGS:" ++
+  ";".intercalate ((c.iaes.zip c.images).map (fun ((e, im) : Iae × List UInt8) =>
+    s!"{e.imageOffset},{e.imageSize},{e.loadAddress},{e.entryPoint},{e.flags},{e.metaData},{toHex e.hash},{if Iae.isEncrypted v e.flags then toHex e.iv else "-"},{im.length},{sha im}"))
+
 def parseDeks : Nat → List String → Option (List (Option (List UInt8)) × List String)
   | 0, rest => some ([], rest)
   | n + 1, t :: rest =>
@@ -107,18 +130,21 @@ def step (st : St) : List String → St × String
     | some v, some ch => ({ st with ver := v, chip := some ch, conts := [] }, "ok")
     | _, _ => (st, "bad-chip")
   | ["cont", flags, sw, fuse] =>
-    ({ st with conts := (⟨pN flags, pN sw, pN fuse, [], emptySb, none⟩, []) :: st.conts }, "ok")
+    ({ st with conts := (⟨pN flags, pN sw, pN fuse, [], emptySb, none⟩, [], []) :: st.conts }, "ok")
   | ["img", d, off, load, entry, flags, md, gap, sa] =>
-    modTop st (fun (c, r) => ({ c with entries := c.entries ++ [⟨pH d, pN off, pN load, pN entry, pN flags, pN md, pN gap, pN sa⟩] }, r))
-  | ["srk", h] => modTop st (fun (c, r) => ({ c with sb := { c.sb with srk := pH h } }, r))
+    modTop st (fun (c, r, r2) => ({ c with entries := c.entries ++ [⟨pH d, pN off, pN load, pN entry, pN flags, pN md, pN gap, pN sa⟩] }, r, r2))
+  | ["srk", h] => modTop st (fun (c, r, r2) => ({ c with sb := { c.sb with srk := pH h } }, r, r2))
   | ["srkrec", alg, hsh, ks, fl, params] =>
-    modTop st (fun (c, r) => (c, ⟨pN alg, pN hsh, pN ks, pN fl, 0, pH params⟩ :: r))
-  | ["sig", h] => modTop st (fun (c, r) => ({ c with sb := { c.sb with signature := pH h } }, r))
-  | ["sig2", h] => modTop st (fun (c, r) => ({ c with sb := { c.sb with signature2 := pH h } }, r))
-  | ["cert", h] => modTop st (fun (c, r) => ({ c with sb := { c.sb with cert := pH h } }, r))
+    modTop st (fun (c, r, r2) => (c, ⟨pN alg, pN hsh, pN ks, pN fl, 0, pH params⟩ :: r, r2))
+  | ["srk2rec", alg, hsh, ks, fl, keydata] =>
+    modTop st (fun (c, r, r2) => (c, r, ⟨pN alg, pN hsh, pN ks, pN fl, pH keydata⟩ :: r2))
+  | ["sig", h] => modTop st (fun (c, r, r2) => ({ c with sb := { c.sb with signature := pH h } }, r, r2))
+  | ["sig2", h] => modTop st (fun (c, r, r2) => ({ c with sb := { c.sb with signature2 := pH h } }, r, r2))
+  | ["cert", h] => modTop st (fun (c, r, r2) => ({ c with sb := { c.sb with cert := pH h } }, r, r2))
   | ["blob", flags, size, alg, mode, len, kb, kid, dek] =>
-    modTop st (fun (c, r) => ({ c with sb := { c.sb with blob := some ⟨pN flags, pN size, pN alg, pN mode, pN len, pH kb, pN kid⟩ },
-                                       dek := if dek == "none" then none else some (pH dek) }, r))
+    let bl : Blob := ⟨pN flags, pN size, pN alg, pN mode, pN len, pH kb, pN kid⟩
+    let dk : Option (List UInt8) := if dek == "none" then none else some (pH dek)
+    modTop st (fun (c, r, r2) => ({ c with sb := { c.sb with blob := some bl }, dek := dk }, r, r2))
   | ["export"] =>
     match theImage st with
     | .ok img => (st, resLine toHex (img.export crypto))
@@ -155,11 +181,23 @@ def step (st : St) : List String → St × String
       | .ok rs => (st, "ok:" ++ repLine (pH bin) rs)
       | .error e => (st, "fail:" ++ e)
     | _, _ => (st, "bad-op")
+  | ["parse", v, maxC, bin] =>
+    (st, match parseVer v with
+      | some v =>
+        match parseFile v (pN maxC) (pH bin) with
+        | some cs => "ok:" ++ " | ".intercalate (cs.map (dumpContainer v))
+        | none => "E:spsdk"
+      | none => "bad-op")
   -- ------------------------------------------------------------ small functions
   | ["flags", v, ty, core, hsh, enc, boot] =>
     (st, match parseVer v with
       | some .v1 => resLine toString (AhabConsts.createFlagsV1 (pI ty) (pI core) (pI hsh) (pB enc) (pI boot))
       | some .v2 => resLine toString (AhabConsts.createFlagsV2 (pI ty) (pI core) (pI hsh) (pB enc) (pI boot))
+      | none => "bad-op")
+  | ["cflags", v, srkSet, used, revoke, gdet, ca] =>
+    (st, match parseVer v with
+      | some .v1 => s!"ok:{containerFlags (pN srkSet) (pN used) (pN revoke) (pN gdet)}"
+      | some .v2 => s!"ok:{containerFlagsV2 (pN srkSet) (pN used) (pN revoke) (pN gdet) (pN ca)}"
       | none => "bad-op")
   | ["meta", a, b, c] => (st, resLine toString (AhabConsts.createMeta (pI a) (pI b) (pI c)))
   | ["coffset", v, ix] =>
